@@ -134,7 +134,7 @@ def parse_spec(path):
             newhdr = None
             if " => " in hdr:
                 hdr, newhdr = hdr.split(" => ", 1)
-            sec = Section("impl", " ".join(hdr.split()), ln)
+            sec = Section("impl", " ".join(hdr.split()).replace(">>", "> >"), ln)
             sec.opts["as"] = newhdr.strip() if newhdr else None
             container().children.append(sec)
             stack.append(sec)
